@@ -523,8 +523,10 @@ class Stats(object):
         self.distinct = []        # line digests
         self.samples = []
         self.inv_held = 0
+        self.lines_compared = 0
 
     def merge(self, o):
+        self.lines_compared += o.lines_compared
         self.seq += o.seq; self.steps += o.steps; self.strong_rock += o.strong_rock; self.ndis += o.ndis; self.inv_held += o.inv_held
         for a in ('opk', 'errk', 'endk', 'lens', 'keys', 'domain_exits', 'failn'): getattr(self, a).update(getattr(o, a))
         for k, v in o.fail.items():
@@ -570,6 +572,7 @@ def compare(stats, cname, exe, lines, cases, expects):
     exe = wait_driver(exe)
     if not exe: return                       # the model did not build: a proof failure is on record, the oracle goes on
     outs = vf.run_driver(exe, lines, shards=1)
+    stats.lines_compared += len(lines)
     for l, c, e, o in zip(lines, cases, expects, outs):
         if o != e:
             stats.ndis += 1
@@ -577,6 +580,7 @@ def compare(stats, cname, exe, lines, cases, expects):
                 mo, im = o.split('|'), e.split('|')
                 i = 0
                 while i < min(len(mo), len(im)) and mo[i] == im[i]: i += 1
+                if isinstance(c, tuple): c, i = c[0], c[1] + i      # a line that prints only the steps from c[1] on
                 stats.disagree.append({'corr': cname, 'case': c, 'first_differing_step': i,
                                        'model': (mo[i] if i < len(mo) else '<no more steps>')[:1500],
                                        'impl': (im[i] if i < len(im) else '<no more steps>')[:1500]})
@@ -586,13 +590,17 @@ def exhaustive_worker(args):
     """enumerate every sequence of exactly `depth` edits (or shorter when an edit raises) below some
     first-level branches of one start grid; every prefix is observed after every step.  A node of the
     tree re-executes its prefix on a fresh start grid (the real object cannot be cloned cheaply) but
-    dumps and checks only the step it adds: its ancestors did the earlier ones."""
+    dumps and checks only the step it adds: its ancestors did the earlier ones.  Likewise the model is
+    asked, per node, for the observation of the last step only (one driver line per node of the tree):
+    every step of every sequence is compared, once."""
     seedname, depth, first_idx, exe = args
     stats = Stats()
     seed_ops = SEEDS[seedname]
     k = len(seed_ops)
     dual = is_dual(seed_ops)
-    head = ['%s%d' % ('D' if dual else 'F', k)] + [encode_op(o) for o in seed_ops]
+    mode = 'D' if dual else 'F'
+    seed_encs = [encode_op(o) for o in seed_ops]
+    head = [mode + str(k)] + seed_encs
     lines, cases, expects = [], [], []
 
     def flush():
@@ -604,12 +612,16 @@ def exhaustive_worker(args):
         out.obs, out.error, out.steps = obs, error, len(ops) - (1 if error else 0)
         out.fail, out.domain_exits, out.strong_rock_breaks = w.fail, w.domain_exits, w.strong_breaks
         case = {'init': {'kind': 'seed', 'name': seedname}, 'ops': [list(o) for o in ops]}
-        line = '\t'.join(head + encs)
-        record(stats, case, ops, out, line)
-        lines.append(line); cases.append(case); expects.append('|'.join(obs))
+        record(stats, case, ops, out, '\t'.join(head + encs))
         if len(stats.samples) < 3 and len(ops) == depth and not error and stats.seq % 97 == 3:
             stats.samples.append({'start': seedname, 'ops': [list(o) for o in ops], 'final_dump': obs[-1]})
         if len(lines) >= 20000: flush()
+
+    def ask(prefix, encs, expected):
+        """one driver line: the whole sequence, of which only the last step is printed"""
+        lines.append('\t'.join([mode + str(k + len(prefix) - 1)] + seed_encs + encs))
+        cases.append(({'init': {'kind': 'seed', 'name': seedname}, 'ops': [list(o) for o in prefix]}, len(prefix) - 1))
+        expects.append(expected)
 
     def node(prefix, encs, obs, w):
         st = build_seed(seed_ops)
@@ -620,9 +632,11 @@ def exhaustive_worker(args):
             dom, key = w.before(st, op)
             try: apply_op(st, op)
             except Exception as e:
+                ask(prefix, encs, 'E:' + exn_name(e))
                 leaf(prefix, encs, obs + ['E:' + exn_name(e)], w, (t, exn_name(e))); return   # the sequence ends at the first exception
             d = dump_st(st, dual)
             obs = obs + [d if w.after(st, op, t, dom, key) else d + '!']
+            ask(prefix, encs, obs[-1])
             if len(prefix) == depth:
                 leaf(prefix, encs, obs, w, None); return
         else:
@@ -728,7 +742,7 @@ def random_combine_op(rng, st, prof):
 
 def random_op(rng, st, geo_lists, prof):
     """one edit, biased towards calls that do something on the current grid"""
-    if st.other is not None and rng.random() < 0.12: return random_combine_op(rng, st, prof)
+    if st.other is not None and rng.random() < 0.18: return random_combine_op(rng, st, prof)
     g = st.main
     names = list(dict.fromkeys(b.name for b in g.blocklist))
     rocks = [r.name for r in g.rocktypelist]
@@ -992,7 +1006,7 @@ def sweep(ctx, exe, plan_exh, n_random, maxlen, sizes, label='', meanwhile=None)
         st = total[kind]
         if not st.seq: continue
         if exe:
-            ctx.corr_cases(cname + label, st.seq, steps_compared=st.steps, op_kinds=dict(st.opk), error_kinds=dict(st.errk),
+            ctx.corr_cases(cname + label, st.seq, steps_compared=st.steps, driver_lines=st.lines_compared, op_kinds=dict(st.opk), error_kinds=dict(st.errk),
                            endings=dict(st.endk), lengths={str(k): v for k, v in sorted(st.lens.items(), key=lambda kv: str(kv[0]))})
             for d in st.disagree: ctx.disagreement(cname + label, d['case'], 'step %d: %s' % (d['first_differing_step'], d['model']), d['impl'])
             extra = st.ndis - len(st.disagree)
